@@ -626,6 +626,12 @@ func genFlushCase(t *rapid.T) *Case {
 			b.Dup = true
 		case 5:
 			b.DelayUS = rapid.IntRange(1, 300).Draw(t, "delayus")
+		case 6:
+			// the answer is packed into req.Rc by hand (as Ufs.Read does with
+			// InitRread) and sent with bare Respond calls: a late answer of a
+			// cancelled request writes into its reply Fcall whatever the helpers do
+			b.DupRace = true
+			b.Async = rapid.Bool().Draw(t, "async")
 		}
 		return b
 	}
@@ -645,7 +651,9 @@ func genFlushCase(t *rapid.T) *Case {
 				case 0, 1:
 					// the Tflush overtakes the start of the target's worker
 					fs.Dir = "target-waits"
-					fs.TPoint = rapid.SampledFrom([]string{"process.enter", "process.enter", "process.checked"}).Draw(t, "tpoint")
+					// ... or, with respond.posted, the queueing of its reply: the
+					// request is answered, its reply decided but not yet queued
+					fs.TPoint = rapid.SampledFrom([]string{"process.enter", "process.enter", "process.checked", "respond.posted"}).Draw(t, "tpoint")
 					if fs.TPoint == "process.enter" {
 						fs.FPoint = rapid.SampledFrom(flushPointsAll).Draw(t, "fpoint")
 					} else {
